@@ -8,6 +8,12 @@ from pyvc.contract import Contract, register
 from pyvc.values import (Struct, Sym, PList, PDict, FuncRef, ExtRef, term, wrap, zand, zor,
                          znot, zeq, Unsupported)
 from spec import termmodel as T
+import contracts.c08 as c08        # noqa: F401  Container.permute (props C08, C14)
+
+# remove_tensor / derivative apply the permutations found by minimize_tensor_indices and by the
+# tensor symmetry to the remaining term through Container.permute: its contract (composition of
+# the transpositions in the given order) is listed under C14 as well
+c08.Permute.props = c08.Permute.props + ["C14"]
 
 ASSUMPTIONS = [
     "abstract view of Term/Obj (kernel K0); Expr(1, **assumptions) is the empty product, Expr *= x multiplies, Pow(b, n) is b^n",
